@@ -254,6 +254,18 @@ func init() {
 				})
 			}
 		}
+		c.Phase("all-m-of-n") // every bare multisig template 1 <= m <= n <= 16, compressed and uncompressed keys
+		n = 0
+		for nn := 1; nn <= 16; nn++ {
+			for mm := 1; mm <= nn; mm++ {
+				n++
+				if !c.Case(n) {
+					continue
+				}
+				r := c.Rand(n)
+				judge(c, &c14Script{Script: c14Multisig(r, mm, nn), Class: "instance:multisig-all"})
+			}
+		}
 		c.Phase("library-built-inscriptions")
 		nl := 40
 		if c.Thorough {
